@@ -2,6 +2,7 @@
 From JV Require Import Sem Gen Spec SpecX.
 From JV.Proofs Require Import SpecFacts Cal Core Year SpecSets.
 Import ListNotations.
+Require JV.Proofs.Enums.
 Open Scope Z_scope.
 
 (* CountIs P n (Spec.v): the set {j | P j} has exactly n elements (it is empty and n = 0, or it is an interval of n days) *)
@@ -42,3 +43,12 @@ Example C08_ex :
   year_count (CR 2299664) 1584 = 356 /\ year_kind_of (CR 1830693) 300 = KReformLeap /\
   year_kind_of (CR 19582149) 48901 = KSkipped /\ year_kind_of (CR 2299161) 1582 = KReformCommon /\ year_count (CR 2299161) 1582 = 355.
 Proof. repeat split; vm_compute; reflexivity. Qed.
+
+(* the four predicates on the year kind say what their names say *)
+Theorem C08_kind_predicates : forall k,
+  YearKind_is_leap k = Ret (match k with YearKind_Leap | YearKind_ReformLeap => true | _ => false end) /\
+  YearKind_is_common k = Ret (match k with YearKind_Common | YearKind_ReformCommon => true | _ => false end) /\
+  YearKind_is_reform k = Ret (match k with YearKind_ReformCommon | YearKind_ReformLeap => true | _ => false end) /\
+  YearKind_is_skipped k = Ret (match k with YearKind_Skipped => true | _ => false end).
+Proof. exact JV.Proofs.Enums.year_kind_predicates. Qed.
+Print Assumptions C08_kind_predicates.
